@@ -107,6 +107,44 @@ def run_case(case):
     return world.finish(once and not case.get('drop'))
 
 
+POLLING = [(1000, 'dtn://peer/'), (0, 'dtn://peer/'), (2 ** 31 - 1, 'ipn:5.0'), (2 ** 31, 'dtn://peer/'),
+           (2 ** 40, 'x'), (5, 7), (5, None), (-1, 'dtn://peer/'), ('soon', 'dtn://peer/'), (3, b'\x01\x02'),
+           (2 ** 64 - 1, ''), (1.5, 'dtn://peer/')]
+
+
+def run_polling(val, nid):
+    ''' A peer announces that it listens (SENDER_LISTEN [, SENDER_NODEID]); then a small bundle from the same peer. '''
+    world = UdpclWorld(None, prop='C13')
+    ext = {3: val}
+    if nid is not None:
+        ext[4] = nid
+    try:
+        world.inject(enc_any(ext), ('10.0.0.7', 4556))
+    except Exception as err:       # pragma: no cover - the fake scheduler catches callback exceptions itself
+        world.emit('Escape', exc=type(err).__name__)
+    world.pump_sender()
+    data = bundle_like(30, 77)
+    world.requests['poll-bundle'] = data
+    world.by_dig[dig(data)] = 'poll-bundle'
+    world.emit('Request', x='poll-bundle', total=len(data), dig=dig(data))
+    world.emit('Piece', x='poll-bundle', kind='whole', size=0, off=0, len=len(data), total=len(data), dataok=True,
+               lensok=True, idx=-1, last=False, reenc=True)
+    world.emit('Arrive', x='poll-bundle', off=0, len=len(data), total=len(data), fresh=True)
+    world.inject(data, ('10.0.0.7', 4556))
+    world.pump_sender()
+    return world.finish(True)
+
+
+def enc_any(val):
+    ''' CBOR encoding including negative integers, floats and byte strings (the independent writer has no floats). '''
+    import struct
+    if isinstance(val, float):
+        return b'\xfb' + struct.pack('>d', val)
+    if isinstance(val, dict):
+        return bp7.head(5, len(val)) + b''.join(enc_any(k) + enc_any(v) for (k, v) in val.items())
+    return bp7.enc(val)
+
+
 def executions(tier, seed):
     rnd = random.Random(seed * 43 + 13)
     cases = []
@@ -188,6 +226,13 @@ def executions(tier, seed):
         out.append({'lengths': [200], 'mtu': mtu, 'salt': 3, 'order': lambda w: list(range(len(w.pending))),
                     'kind': 'impossible'})
     traces, metas = [], []
+    # peer discovery: extension maps announcing a listening sender, with boundary / ill-typed values; what the
+    # agent signals (polling_received) must always fit its declared signature, and the queue listing must list
+    # exactly what was announced and not yet popped
+    for (val, nid) in POLLING:
+        traces.append(run_polling(val, nid))
+        metas.append({'kind': 'polling', 'lengths': [], 'mtu': None, 'foreign': True, 'composed': [],
+                      'interval': repr(val), 'node_id': repr(nid)})
     for c in out:
         traces.append(run_case(c))
         metas.append({'kind': c['kind'], 'lengths': c['lengths'], 'mtu': c['mtu'], 'foreign': bool(c.get('foreign')),
